@@ -11,7 +11,7 @@ import sys
 import types
 import os as _os
 import billiard.connection as bc
-from harness.hbase import fail, tier, Prune, REPLAY, realize, PART, NPART
+from harness.hbase import fail, tier, Prune, REPLAY, realize, PART, NPART, NDCode, CODEMAX
 
 KMAX = tier(2, 3)
 
@@ -119,7 +119,7 @@ KEYS = (b'j', b'k', b'\x00', b'jk', b'kj', b'k\x00', b'j\x00', b'\x00k', b'kk') 
 
 
 def _key(i):
-    return KEYS[realize(i)]
+    return KEYS[i] if isinstance(i, int) and not hasattr(i, '__ch_realize__') else KEYS[realize(i)]
 
 
 def _mutual(kl, kc, c1, c2, want):
@@ -160,22 +160,31 @@ CHALLENGES = (b'\x01' * 20, b'#' * 20, b'#CHALLENGE#' + b'\x05' * 9, b'EGNAL' + 
 # "whatever the challenge bytes": bytes that also occur in the protocol's own markers, NULs, the markers themselves
 
 
-def h_mutual(ka: int, kb: int, ch: int) -> bool:
+def h_mutual(code: int) -> bool:
     """
-    pre: 0 <= ka < len(KEYS) and 0 <= kb < len(KEYS) and 0 <= ch <= len(CHALLENGES)
+    pre: 0 <= code < CODEMAX
     post: _
     """
-    ch = realize(ch)
+    try:
+        nd = NDCode(code)
+        ka, kb, ch = nd.draw(0, len(KEYS) - 1), nd.draw(0, len(KEYS) - 1), nd.draw(0, len(CHALLENGES))
+    except Prune:
+        return True
     c1 = CHALLENGES[ch % len(CHALLENGES)]
     c2 = c1 if ch == len(CHALLENGES) else CHALLENGES[(ch + 1) % len(CHALLENGES)]      # the last case: the same challenge in both directions
     return _mutual(_key(ka), _key(kb), c1, c2, False)
 
 
-def h_mutual_twin(ka: int, kb: int, ch: int) -> bool:
+def h_mutual_twin(code: int) -> bool:
     """
-    pre: 0 <= ka < len(KEYS) and 0 <= kb < len(KEYS)
+    pre: 0 <= code < CODEMAX
     post: _
     """
+    try:
+        nd = NDCode(code)
+        ka, kb = nd.draw(0, len(KEYS) - 1), nd.draw(0, len(KEYS) - 1)
+    except Prune:
+        return True
     c1 = b'\x01' * 20
     return _mutual(_key(ka), _key(kb), c1, c1, True)
 
